@@ -57,7 +57,8 @@ FORWARD_RULES = {
     # first match wins; a rule whose result is the empty string never rewrites
     'Forward1': [(r'^a@x$', 'z@w')],
     'Forward2': [(r'@x$', '@x2'), (r'^a@', 'never@')],
-    'Forward3': [(r'^nomatch$', 'q'), (r'^nodomain$', '')],
+    # the third rule differs from recipients of the alphabet only in letter case: rules match as they are written
+    'Forward3': [(r'^nomatch$', 'q'), (r'^nodomain$', ''), (r'^C@y$', 'cased@w')],
     'Forward4': [(r'^b@x$', 'a@x'), (r'^e@$', 'e@Y')],
 }
 POLICY_NAMES = ['RecipientSplit', 'RecipientDomainSplit', 'Forward1', 'Forward2', 'Forward3', 'Forward4',
